@@ -404,6 +404,14 @@ func exec(consumers bool) func(script []string, opt comp.Options) comp.Result {
 				if log.NumPending() > 0 {
 					w.tags.Add("blocked-at-quiesce")
 				}
+				pv, pe := 0, 0
+				if w.tgt != nil {
+					pv = w.tgt.GetValue()
+					if ep := w.terr.GetValue(); ep != nil {
+						pe = errID(*ep)
+					}
+				}
+				log.Add("probe %d %d", pv, pe)
 				log.Quiesce()
 			default:
 				if consumers {
